@@ -192,6 +192,17 @@ CHECKS = {
         "jobs": [{"pkg": "c13par", "run": "TestParallelBubble", "kinds": ["parallel"], "scale_thorough": 8, "shards_thorough": 16, "replay_reps": 20},
                  {"pkg": "c13par", "run": "TestParallelRace", "race": True, "kinds": ["parallel-race"], "scale_thorough": 8, "shards_thorough": 8, "replay_reps": 20}],
     },
+    "C14": {
+        "level": "exploration",
+        "level_text": ("Generated (length, parallelism incl. <= 0, bufferSize incl. <= 0 / smaller / larger than parallelism, latency pattern that makes late items finish first, consumer pace, and for MapStream source error position, failing f calls, "
+                       "expiring per-call contexts, Close after j results, cancelled construction context) run in testing/synctest bubbles R times: results in source order exactly once, the pulled-minus-yielded gauge read at quiescence points never exceeds "
+                       "bufferSize+parallelism+1, no deadlock (durable-block detection), failures are errors the source or f returned, never a result beyond a failed item, Close returns with the source closed once and no goroutine left"),
+        "level_note": "The gauge is read only at quiescence, where both counters are exact; interleavings come from generated latencies/paces and repetition.",
+        "technique": "property-based testing (rapid) in testing/synctest bubbles; order/gauge/error-provenance oracle",
+        "rule": ("kinds map-iterator, map-stream. non-trivial = completion order differed from source order AND the gauge reached its bound (back-pressure engaged), or a failure surfaced with results still in flight; distinct = distinct plan JSON; R=3/10"),
+        "assumptions": ["testing/synctest", "rapid v1.3.0; go1.26.8"],
+        "jobs": [{"pkg": "c14mapit", "kinds": ["map-iterator", "map-stream"], "scale_thorough": 8, "shards_thorough": 16, "replay_reps": 30}],
+    },
     "C04": {
         "level": "exploration",
         "level_text": ("Model-based property testing: thousands of generated operation histories (macro-ops reach wrapped, full, "
